@@ -55,7 +55,8 @@ SubOk2(s, o) == SubOk(s, o) /\ o.w <= s.used
 
 \* The projection keeps one bit of max_qos ("some QoS requested").  A merge that raises a non-zero max_qos to a higher one
 \* (items and waiters carrying a QoS: block objects made with dispatch_block_create, queues with QoS attributes) therefore
-\* looks like "qos unchanged"; on a base queue it also sets RECEIVED_OVERRIDE.  Allow that outcome wherever a QoS is merged.
+\* looks like "qos unchanged" (for a wakeup without MAKE_DIRTY: like no change at all); on a base queue it also sets
+\* RECEIVED_OVERRIDE.  Allow that outcome wherever a QoS is merged.
 WithOverride(S) == S \cup {[x EXCEPT !.ro = TRUE] : x \in {y \in S : y.qos > 0 /\ BASE}}
 \* ---- which new words can function f produce from old, called by thread t ----
 Allowed(f, op, old, t) ==
@@ -74,7 +75,7 @@ Allowed(f, op, old, t) ==
     [] f = "_dispatch_lane_drain" -> IF op = "xor" /\ old.ib /\ OwnsLock(old, t) THEN {[old EXCEPT !.ib = FALSE]} ELSE {}
     [] f = "_dispatch_queue_invoke_finish" ->
          IF ~OwnsLock(old, t) THEN {} ELSE {InvokeFinish(old, o).s : o \in {x \in Owneds : SubOk2(old, x)}}
-    [] f = "_dispatch_queue_wakeup" -> WithOverride({WakeupQ(old, p[1], p[2]).s : p \in {q \in BOOL \X (0..QW) : WakeupQ(old, q[1], q[2]).changed}})
+    [] f = "_dispatch_queue_wakeup" -> WithOverride({WakeupQ(old, p[1], p[2]).s : p \in {q \in BOOL \X (0..QW) : WakeupQ(old, q[1], q[2]).changed \/ (old.qos > 0 /\ q[2] > 0)}})
     [] f = "_dispatch_lane_push_waiter" -> WithOverride({PushWaiter(MergeQos(old, q), t).s : q \in 0..QW})
     [] f = "_dispatch_lane_non_barrier_complete" -> {NonBarrierComplete(old, t)}
     [] f = "_dispatch_lane_class_barrier_complete" ->
